@@ -82,14 +82,15 @@ def run(tier, seed, replay=None):
 
     traces, meta = [], {}
 
-    def execute(prog, form, control, origin, step_ns=1, shuffle=None, early=0, prior=0):
+    def execute(prog, form, control, origin, step_ns=1, shuffle=None, early=0, prior=0, inject=None):
         labels, probe, w, err = run_program(prog, form=form, control=control, step_ns=step_ns,
-                                            shuffle_push=shuffle, early=early, prior=prior)
+                                            shuffle_push=shuffle, early=early, prior=prior,
+                                            inject=random.Random(inject) if inject is not None else None)
         tid = len(traces) + 1
         end_ns = None if prog.end_t == INF else prog.end_t * step_ns
         traces.append(to_trace(tid, probe.log, end_ns))
         meta[tid] = dict(origin=origin, form=form, control=control, step_ns=step_ns, end_t=prog.end_t,
-                         events=prog.events, delivered=labels, early=early, prior=prior)
+                         events=prog.events, delivered=labels, early=early, prior=prior, inject=inject)
         chk.impl_steps += len(labels)
         if err:
             chk.violation(f"exception:{err.split(':')[0]}", f"real engine raised {err}", meta[tid])
@@ -125,8 +126,11 @@ def run(tier, seed, replay=None):
         # every 4th program: some pre-run events are created before Simulation() exists, after
         # unrelated earlier activity in the interpreter (sort indices must still follow creation)
         early = rng.randint(1, 4) if k % 4 == 1 else 0
+        # every 5th program is driven through pause/step and gets events scheduled while paused
+        inject = rng.randint(1, 10**9) if k % 5 == 2 else None
         execute(p, form, control, "random", step_ns=(1, 1000, 10**9)[k % 3],
-                shuffle=rng if k % 2 else None, early=early, prior=rng.randint(0, 7) if early else 0)
+                shuffle=rng if k % 2 else None, early=early, prior=rng.randint(0, 7) if early else 0,
+                inject=inject)
 
     verdicts, results = tlc.validate_traces(SPEC / "EngineTrace.tla", traces, label="C01_trace")
     for r in results:
@@ -188,8 +192,10 @@ def do_replay(chk, path):
     import json
     m = json.loads(open(path).read())["replay"]["meta"]
     prog = Program(m["events"], m["end_t"])
+    inj = m.get("inject")
     labels, probe, w, err = run_program(prog, form=m["form"], control=m["control"], step_ns=m["step_ns"],
-                                        early=m.get("early", 0), prior=m.get("prior", 0))
+                                        early=m.get("early", 0), prior=m.get("prior", 0),
+                                        inject=random.Random(inj) if inj is not None else None)
     end_ns = None if prog.end_t == INF else prog.end_t * m["step_ns"]
     tr = to_trace(1, probe.log, end_ns)
     verdicts, results = tlc.validate_traces(SPEC / "EngineTrace.tla", [tr], label="C01_replay")
